@@ -107,6 +107,18 @@ def x_decode(ctx, case):
         first = lazy.as_text()
         box[0] = list(parts) + list(parts)
         second, third = lazy.as_text(), "".join(lazy.iter_text())
+        # a subclass that overrides iter_bytes() (here: it serialises its source twice over): its text is the text
+        # of the bytes IT yields
+        class Twice(Content):
+            def iter_bytes(self):
+                yield from super().iter_bytes()
+                yield from super().iter_bytes()
+        sub = Twice(_ct(charset), lambda: list(parts))
+        sub_text, sub_iter = sub.as_text(), "".join(sub.iter_text())
+        ctx.check(sub_text == expected2 and sub_iter == expected2 and b"".join(sub.iter_bytes()) == data + data,
+                  "decode.as_text==whole.decode",
+                  lambda: {"a Content subclass overriding iter_bytes": True, "as_text()": sub_text, "iter_text": sub_iter,
+                           "the bytes it yields decode to": expected2, "charset": charset})
         ctx.check(first == expected and second == expected2 and third == expected2, "decode.as_text==whole.decode",
                   lambda: {"first as_text()": first, "after the source doubled": second, "iter_text": third,
                            "expected then": expected2, "charset": charset})
